@@ -13,6 +13,8 @@
 (***************************************************************************)
 EXTENDS RxAlloc, Json, IOUtils
 
+CONSTANT StrictSteps    \* TRUE: additionally require conformance with the RxAlloc step model
+
 TraceLog == ndJsonDeserialize(IOEnv.TRACE)
 VARIABLES l, ids      \* ids: harness object name -> model object (first free one)
 tvars == <<vars, l, ids>>
@@ -35,6 +37,11 @@ NameOf(ev) == CASE ev.e = "AllocCache" -> ev.c [] ev.e = "AllocDataset" -> ev.d 
 OpOf(ev) == CASE ev.e = "AllocCache" -> "alloc_cache" [] ev.e = "AllocDataset" -> "alloc_dataset" [] ev.e = "CreateVm" -> "create_vm"
 FreeObj == CHOOSE o \in Objs : obj[o].state = "none"
 
+\* Property level (C15 as stated): a request failed during the call (injected, or refused by the OS)
+\*   <=> the call returns NULL, and then heap blocks / mapped bytes / heap bytes are exactly as at entry.
+\* Model conformance (StrictSteps): the request sequence is the model's step list and the call is
+\*   the RxAlloc action Create(o, op, flags, failAt) with the same outcome and resource deltas.
+AnyRefused(rq) == \E i \in 1..Len(rq) : ~rq[i].ok
 TCreate ==
   /\ l <= Len(TraceLog) /\ Ev.e \in {"AllocCache", "AllocDataset", "CreateVm"} /\ l' = l + 1
   /\ LET f == FlagsOf(Ev)
@@ -44,35 +51,44 @@ TCreate ==
          o == FreeObj
          fa == IF Ev.failAt \in 1..Len(steps) THEN Ev.failAt ELSE 0
          ff == FirstFailure(steps, fa)
-     IN  /\ Create(o, op, f, fa)
-         /\ Ev.ok = lastCall'.ok
-         /\ IF ff = 0
-            THEN \* success: exactly the model's requests, all granted; the object now owns them
-                 /\ Len(rq) = Len(steps)
-                 /\ \A i \in 1..Len(steps) : Matches(rq[i], steps[i]) /\ rq[i].ok
-                 /\ Ev.blocks1 - Ev.blocks0 = Cardinality({i \in 1..Len(steps) : steps[i].kind = "heap"})
-                 /\ Ev.mapped1 - Ev.mapped0 = CodeBytes * Cardinality({i \in 1..Len(steps) : steps[i].kind = "map"})
-                 /\ ids' = [ids EXCEPT ![NameOf(Ev)] = o]
-            ELSE \* failure at step ff: the requests before it were granted, request ff was refused,
-                 \* whatever is requested afterwards (exception objects) is not a model resource
-                 /\ Len(rq) >= ff
-                 /\ \A i \in 1..ff : Matches(rq[i], steps[i]) /\ (rq[i].ok <=> i < ff)
-                 /\ \A i \in (ff + 1)..Len(rq) : rq[i].n = "other"
-                 /\ Ev.blocks1 = Ev.blocks0 /\ Ev.mapped1 = Ev.mapped0 /\ Ev.heap1 = Ev.heap0
-                 /\ Ev.faultFired = (fa = ff)
-                 /\ ids' = ids
+         failed == Ev.faultFired \/ AnyRefused(rq)
+     IN  /\ Ev.ok = ~failed
+         /\ (failed => (Ev.blocks1 = Ev.blocks0 /\ Ev.mapped1 = Ev.mapped0 /\ Ev.heap1 = Ev.heap0))
+         /\ (~failed => (Ev.blocks1 > Ev.blocks0))
+         /\ (Ev.failAt > 0 /\ Ev.failAt <= Ev.reqs => Ev.faultFired)
+         /\ IF StrictSteps
+            THEN /\ Create(o, op, f, fa)
+                 /\ Ev.ok = lastCall'.ok
+                 /\ IF ff = 0
+                    THEN /\ Len(rq) = Len(steps)
+                         /\ \A i \in 1..Len(steps) : Matches(rq[i], steps[i]) /\ rq[i].ok
+                         /\ Ev.blocks1 - Ev.blocks0 = Cardinality({i \in 1..Len(steps) : steps[i].kind = "heap"})
+                         /\ Ev.mapped1 - Ev.mapped0 = CodeBytes * Cardinality({i \in 1..Len(steps) : steps[i].kind = "map"})
+                    ELSE /\ Len(rq) >= ff
+                         /\ \A i \in 1..ff : Matches(rq[i], steps[i]) /\ (rq[i].ok <=> i < ff)
+                         /\ \A i \in (ff + 1)..Len(rq) : rq[i].n = "other"
+                         /\ Ev.faultFired = (fa = ff)
+            ELSE \* without the step model only track which objects exist
+                 IF failed THEN UNCHANGED vars
+                 ELSE /\ obj' = [obj EXCEPT ![o] = [state |-> "live", op |-> op, flags |-> f, fields |-> {}]]
+                      /\ UNCHANGED <<live, lastCall>>
+         /\ ids' = IF failed THEN ids ELSE [ids EXCEPT ![NameOf(Ev)] = o]
 
 TDestroy ==
   /\ l <= Len(TraceLog) /\ Ev.e \in {"ReleaseCache", "ReleaseDataset", "DestroyVm"} /\ l' = l + 1
   /\ LET n == CASE Ev.e = "ReleaseCache" -> Ev.c [] Ev.e = "ReleaseDataset" -> Ev.d [] Ev.e = "DestroyVm" -> Ev.v
          o == ids[n]
          steps == Steps(obj[o].op, obj[o].flags)
-     IN  /\ o \in Objs /\ Destroy(o)
+     IN  /\ o \in Objs
          /\ Reqs(Ev) = <<>>
-         /\ Ev.blocks0 - Ev.blocks1 >= Cardinality({i \in 1..Len(steps) : steps[i].kind = "heap"})
-         /\ Ev.mapped0 - Ev.mapped1 = CodeBytes * Cardinality({i \in 1..Len(steps) : steps[i].kind = "map"})
+         /\ Ev.blocks1 < Ev.blocks0
+         /\ IF StrictSteps
+            THEN /\ Destroy(o)
+                 /\ Ev.blocks0 - Ev.blocks1 >= Cardinality({i \in 1..Len(steps) : steps[i].kind = "heap"})
+                 /\ Ev.mapped0 - Ev.mapped1 = CodeBytes * Cardinality({i \in 1..Len(steps) : steps[i].kind = "map"})
+            ELSE /\ obj' = [obj EXCEPT ![o] = NoObj] /\ UNCHANGED <<live, lastCall>>
          /\ ids' = [ids EXCEPT ![n] = "none"]
-         \* nothing alive in the model => nothing alive in the process
+         \* nothing alive any more => the process holds nothing of the library: no leak over create/use/destroy cycles
          /\ ((\A x \in Objs : obj'[x].state = "none") => (Ev.blocks1 = 0 /\ Ev.mapped1 = 0 /\ Ev.heap1 = 0))
 
 \* calls that use objects: may keep small heap blocks inside the objects (vectors, key strings),
